@@ -10,11 +10,10 @@ RULE = ('exhaustive matrix for 1..3 (quick) / 1..4 (thorough) named parameters: 
         'called args in first, middle or last position / kwargs / cls / names from a pool of ~50: single letters, substrings and superstrings of self, cls, args, kwargs, the own keywords and locals of the library) and a default value \'*args\' (the text *args inside str(signature)) cycle with a counter.  Plus seeded structured programs as in '
         'C12 without VAR_POSITIONAL parameter (ordinary parameters called args, kwargs, cls, and self in a non-first position; histories of '
         'calls on one decorated function object with re-entrant validators; keyword-only parameters, value types, chains, None and the falsy values 0, \'\', [], {}, (), False, 0.0, '
-        'ignore_input, a keyword called self) and Flask sources (FlaskJson/Form/Get/Header/PathParameter under app.test_request_context).  non-trivial = the call carries an argument or a Parameter is declared')
+        'ignore_input, a keyword called self on plain functions and methods, methods called on the class with the receiver passed by keyword), the receiver enumeration of C12 (a keyword self on plain functions, an ordinary parameter called self in second position, methods with the receiver positional / by keyword) and Flask sources (FlaskJson/Form/Get/Header/PathParameter under app.test_request_context).  non-trivial = the call carries an argument or a Parameter is declared')
 EXHAUSTIVE = {'quick': True, 'thorough': True}
 ASSUMPTIONS = ['functions without VAR_POSITIONAL parameter (`*args` under any name: the property excludes them); Parameter names distinct (duplicates are checked for correspondence only)',
-               'external sources exercised: EnvironmentVariableParameter, a harness-defined ExternalParameter, and the Flask parameters (JSON body, form, query string, headers) under app.test_request_context',
-               '`self` is the first positional parameter of a method or does not occur at all (decidable guard selfIsReceiver of the theorem); a keyword `self` on a plain function or an ordinary parameter called self in a non-first position is a recorded edge: correspondence only, counted in the evidence']
+               'external sources exercised: EnvironmentVariableParameter, a harness-defined ExternalParameter, and the Flask parameters (JSON body, form, query string, headers) under app.test_request_context']
 TRUSTED = ['Python call binding (positional / keyword / defaults) is modelled (`bindCall`) and exercised on every case, not verified']
 
 
@@ -22,6 +21,7 @@ def cases(rng, tier):
     out = []
     if tier == 'quick':
         out += V.byname_matrix(rng, 1) + V.byname_matrix(rng, 2) + V.byname_matrix(rng, 3)
+        out += V.receiver_enum(rng)
         out += V.random_cases(rng, 22000, allow_varargs=False)
         out += V.scenario_cases(rng, 1200, allow_varargs=False)
         out += V.flask_cases(rng, 4000)
@@ -29,6 +29,7 @@ def cases(rng, tier):
         out += V.byname_matrix(rng, 1) + V.byname_matrix(rng, 2) + V.byname_matrix(rng, 3)
         out += V.byname_matrix(rng, 4, omissions=False, full_flags=False)
         out += V.byname_matrix(rng, 4, omissions=True, full_flags=False, stride=9)
+        out += V.receiver_enum(rng)
         out += V.random_cases(rng, 60000, allow_varargs=False)
         out += V.scenario_cases(rng, 8000, allow_varargs=False)
         out += V.flask_cases(rng, 30000)
